@@ -5,7 +5,7 @@
 set -e
 V="$(dirname "$0")/../.venv312"
 V="$(cd "$(dirname "$0")/.." && pwd)/.venv312"
-if [ -x "$V/bin/python" ] && "$V/bin/python" -c "import z3, cvc5, numpy, jsonschema, maze_dataset" >/dev/null 2>&1; then
+if [ -x "$V/bin/python" ] && [ -f "$V/.ok" ]; then
   exit 0
 fi
 LOCK="$V.lock"
@@ -22,4 +22,4 @@ PIP_NO_INDEX=1 "$V/bin/python" -m pip install -q --no-index --find-links /opt/ve
    z3-solver cvc5 jsonschema
 SP=$("$V/bin/python" -c "import sysconfig;print(sysconfig.get_paths()['purelib'])")
 echo "import site; site.addsitedir('/venv/lib/python3.12/site-packages')" > "$SP/zz_overlay.pth"
-"$V/bin/python" -c "import z3, numpy, jsonschema, maze_dataset; print('overlay venv ok', z3.get_version_string(), numpy.__version__)"
+"$V/bin/python" -c "import z3, cvc5, numpy, jsonschema, maze_dataset; print('overlay venv ok', z3.get_version_string(), numpy.__version__)" && touch "$V/.ok"
